@@ -11,6 +11,9 @@ RO = 2560          # result values in vals
 VA_BUF = 1984      # va_list placed in outs when not alloca'ed
 VAO = 1920         # copy of the va_list right after va_start
 NPRESS = 22
+CO = 4096          # argument values of the nested call of an xcall body in vals
+FO = 5120          # fp pressure values of an xcall body in vals
+XR = XO + 256      # results of the nested call of an xcall body in outs
 
 
 def func_header(proto):
@@ -44,6 +47,8 @@ def c06_mir(proto, body):
          'import outs, vals, helper, probe', 'export f']
     if body['kind'] == 'inl':
         L += ['gp: proto i64, i64:x', 'forward ig, ih']
+    if body['kind'] == 'xcall':
+        L.append(G.proto_text(body['cproto'], 'cp'))
     L.append(func_header(proto))
     loc = ['i64:o', 'i64:v', 'i64:t', 'i64:dst', 'i64:va', 'i64:s', 'i64:h', 'i64:ap', 'i64:am', 'i64:an', 'i64:ap2', 'd:dz']
     B = ['mov o, outs', 'mov v, vals']
@@ -62,6 +67,16 @@ def c06_mir(proto, body):
         for k in range(NPRESS):
             loc.append('d:q%d' % k)
             B.append('dmov q%d, d:%d(v)' % (k, PO + 8 * k))
+    if kind == 'xcall':
+        for k in range(body['ni']):
+            loc.append('i64:p%d' % k)
+            B.append('mov p%d, i64:%d(v)' % (k, PO + 8 * k))
+        for k in range(body['nd']):
+            loc.append('d:q%d' % k)
+            B.append('dmov q%d, d:%d(v)' % (k, FO + 8 * k))
+        if body.get('xalloca'):
+            B.append('alloca ap, 48')
+            B.append('mov i64:40(ap), 81985529216486895')
     if kind == 'alloca':
         B.append('mov an, i64:%d(v)' % PO)
         if body.get('bstart'):
@@ -146,6 +161,50 @@ def c06_mir(proto, body):
             B.append('add s, s, p%d' % k)
             B.append('lsh s, s, 1')
         B.append('mov i64:%d(o), s' % XO)
+    if kind == 'xcall':
+        # a call of every argument-placement kind made by the function itself, with ni integers and nd doubles
+        # live across it (and across the argument set-up): register / stack scalars, blocks copied to the stack
+        cp = body['cproto']
+        coffs, _ = G.layout(cp)
+        if body.get('hcall'):
+            B.append('call hp, helper, h, 5, 7')
+        ops = []
+        for i, (t, off) in enumerate(zip(cp['args'], coffs)):
+            rt = G.reg_type(t)
+            loc.append('%s:c%d' % (rt, i))
+            if G.is_blk(t):
+                B.append('add c%d, v, %d' % (i, CO + off))
+                kk, sz = t.split(':')
+                ops.append('%s:%s(c%d)' % (kk, sz, i))
+            else:
+                mv = {'f': 'fmov', 'd': 'dmov', 'ld': 'ldmov'}.get(t, 'mov')
+                mt = t if t in ('f', 'd', 'ld') else 'i64'
+                B.append('%s c%d, %s:%d(v)' % (mv, i, mt, CO + off))
+                ops.append('c%d' % i)
+        crs = []
+        for i, t in enumerate(cp['res']):
+            loc.append('%s:cr%d' % (G.reg_type(t), i))
+            crs.append('cr%d' % i)
+        B.append('call ' + ', '.join(['cp', 'probe'] + crs + ops))
+        for i, t in enumerate(cp['res']):
+            mv = {'f': 'fmov', 'd': 'dmov', 'ld': 'ldmov'}.get(t, 'mov')
+            mt = t if t in ('f', 'd', 'ld') else 'i64'
+            B.append('%s %s:%d(o), cr%d' % (mv, mt, XR + 16 * i, i))
+        B.append('mov s, %d' % (3 if not body.get('hcall') else 0))
+        if body.get('hcall'):
+            B.append('add s, s, h')
+        for k in range(body['ni']):
+            B.append('add s, s, p%d' % k)
+            B.append('lsh s, s, 1')
+        B.append('mov i64:%d(o), s' % XO)
+        B.append('dmov dz, d:%d(v)' % (FO + 8 * 30))
+        for k in range(body['nd']):
+            B.append('dadd dz, dz, q%d' % k)
+        B.append('dmov d:%d(o), dz' % (XO + 8))
+        if body.get('xalloca'):
+            B.append('mov i64:%d(o), i64:40(ap)' % (XO + 16))
+            B.append('and am, ap, 15')
+            B.append('mov i64:%d(o), am' % (XO + 24))
     if kind == 'leafpress':
         # two rounds so that every value is live across the whole first round
         B.append('mov s, 0')
@@ -214,6 +273,75 @@ def gen_body(rng):
                 fcw=rng.choice([0x037f, 0x037f, 0x027f, 0x0f7f, 0x0b7f]))
 
 
+XCALL_RES = [[], ['i64'], ['d'], ['i64', 'd'], ['ld'], ['u8', 'f'], ['i32', 'i64']]
+
+
+def xcall_protos(rng, nrandom):
+    """prototypes of the call the MIR function makes itself: every argument-placement kind"""
+    i6, d8 = ['i64'] * 6, ['d'] * 8
+    fam = []
+    # B: blocks copied to the outgoing stack area, NO scalar on the stack (moves for <= 16 bytes, arg_memcpy above)
+    for a in (['blk:24', 'i64', 'i64', 'i64'], ['blk:8'], ['blk:16', 'd'], ['blk:17'], ['blk:200', 'i64'], ['blk:1', 'blk:40'],
+              i6 + ['blk1:16'], ['i64'] * 5 + ['blk1:16'], d8 + ['blk2:8'], ['d'] * 7 + ['blk2:16'], i6 + d8 + ['blk3:16'],
+              i6 + ['blk4:12', 'd'], ['blk:0', 'blk:9'], ['p', 'blk:64', 'f', 'u8']):
+        fam.append(('stack-blocks-only', a, None))
+    # S: scalars on the stack
+    for a in (['i64'] * 7, ['i64'] * 8, ['d'] * 9, ['ld'], ['i64', 'ld', 'd'], ['f'] * 9 + ['i32'] * 7):
+        fam.append(('stack-scalars', a, None))
+    # R: registers only
+    for a in (i6 + d8, ['blk1:16', 'blk2:16', 'i64'], [], ['rblk:24', 'i64'], ['blk3:16', 'blk4:16'], ['blk:0']):
+        fam.append(('registers-only', a, None))
+    # both
+    for a in (['i64'] * 7 + ['blk:24'], ['blk:24'] + ['d'] * 9, ['ld', 'blk1:16', 'blk:40'], ['i64', 'd'] * 20):
+        fam.append(('stack-scalars-and-blocks', a, None))
+    for a, nf in ((['p', 'd', 'i64', 'blk:24'], 1), (['p', 'blk1:16', 'ld'], 1), (['p', 'i64', 'i64', 'i64', 'i64', 'i64', 'blk1:16'], 2),
+                  (['p', 'blk:40'], 1)):
+        fam.append(('variadic', a, nf))
+    out = []
+    for k, (f, a, nf) in enumerate(fam):
+        out.append(dict(args=list(a), nfixed=len(a) if nf is None else nf, vararg=nf is not None, res=list(XCALL_RES[k % len(XCALL_RES)]),
+                        style='xcall', family=f))
+    for _ in range(nrandom):
+        p = G.gen_proto(rng, maxargs=14)
+        if len(p['res']) > 6:
+            p['res'] = p['res'][:6]
+        p['family'] = 'generated'
+        out.append(p)
+    return out
+
+
+# signatures of the MIR function itself that leave the frame-pointer decision to the body (register-only scalars) ...
+XCALL_OUTER_FREE = [[], ['i64'], ['p', 'p'], ['i64', 'd'], ['i32', 'u8', 'd', 'f'], ['i64'] * 6, ['i64'] * 6 + ['d'] * 8]
+# ... and ones that force a frame pointer by themselves (stack / block parameters, variadic)
+XCALL_OUTER_FORCED = [(['i64'] * 7, None), (['blk:24', 'i64'], None), (['p', 'i64', 'd'], 1), (['d'] * 9, None), (['blk1:16', 'd'], None),
+                      (['i64', 'ld'], None)]
+
+
+def xcall_cases(rng, nrandom, engines):
+    """(outer proto, body, engine list): MIR functions that CALL with every argument-placement kind under register
+    pressure, with and without frame-pointer-forcing features (alloca, stack/block parameters, variadic)"""
+    out = []
+    for cp in xcall_protos(rng, nrandom):
+        cvals, crets = G.gen_values(rng, cp)
+        cvals = G.fix_values(cp, cvals, rng)
+        for rep in range(2):
+            if rep == 0 or rng.random() < 0.4:
+                a, nf = rng.choice(XCALL_OUTER_FREE), None
+            else:
+                a, nf = rng.choice(XCALL_OUTER_FORCED)
+            proto = dict(args=list(a), nfixed=len(a) if nf is None else nf, vararg=nf is not None,
+                         res=rng.choice([['i64'], [], ['d'], ['i64', 'd']]), style='xcall-outer')
+            b = gen_body(rng)
+            b.update(kind='xcall', cproto=cp, cvals=[v.hex() for v in cvals],
+                     crets={k: (v.hex() if isinstance(v, (bytes, bytearray)) else v) for k, v in crets.items()},
+                     ni=rng.choice([0, 3, 6, 7, 10, 14, 22]), nd=rng.choice([0, 0, 4, 9, 15, 20]),
+                     xalloca=(rep == 1 and rng.random() < 0.5), hcall=rng.random() < 0.3)
+            if rep == 0 and b['ni'] + b['nd'] < 6:
+                b['ni'] = rng.choice([7, 10, 14, 22])
+            out.append((proto, b, engines(rep)))
+    return out
+
+
 def res_values(rng, proto):
     out = []
     for t in proto['res']:
@@ -229,6 +357,15 @@ def res_values(rng, proto):
 def vals_buffer(proto, body, resvals):
     import struct
     buf = bytearray(PO + 8 * NPRESS + 64)
+    if body['kind'] == 'xcall':
+        buf = bytearray(FO + 8 * 32)
+        for k, x in enumerate(body['press']):
+            buf[PO + 8 * k:PO + 8 * k + 8] = x.to_bytes(8, 'little')
+        for k, x in enumerate(body['fpress']):
+            buf[FO + 8 * k:FO + 8 * k + 8] = struct.pack('<d', x)
+        buf[FO + 8 * 30:FO + 8 * 31] = struct.pack('<d', 1.0)
+        cb = G.vals_bytes(body['cproto'], [bytes.fromhex(x) for x in body['cvals']])
+        buf[CO:CO + len(cb)] = cb
     for i, b in enumerate(resvals):
         buf[RO + 16 * i:RO + 16 * i + len(b)] = b
     if body['kind'] in ('pressure', 'call', 'leafpress'):
@@ -396,6 +533,31 @@ def compare_c06(proto, body, m, impl, vals, resvals, rblk_ptrs, engine='gen'):
         got = int.from_bytes(outs[XO:XO + 8], 'little')
         if got != press_sum(body):
             bad.append('register-pressure checksum wrong: %x, expected %x' % (got, press_sum(body)))
+    if kind == 'xcall':
+        import struct
+        M = (1 << 64) - 1
+        sgot = int.from_bytes(outs[XO:XO + 8], 'little')
+        want = 22 if body.get('hcall') else 3
+        for k in range(body['ni']):
+            want = ((want + body['press'][k]) << 1) & M
+        if sgot != want:
+            bad.append('%d integer values live across the call of %s: checksum %x, expected %x' % (body['ni'], G.proto_sig(body['cproto']), sgot, want))
+        dgot = struct.unpack('<d', outs[XO + 8:XO + 16])[0]
+        dwant = 1.0 + sum(body['fpress'][:body['nd']])
+        if dgot != dwant:
+            bad.append('%d double values live across the call of %s: sum %r, expected %r' % (body['nd'], G.proto_sig(body['cproto']), dgot, dwant))
+        if body.get('xalloca'):
+            if int.from_bytes(outs[XO + 16:XO + 24], 'little') != 81985529216486895 or int.from_bytes(outs[XO + 24:XO + 32], 'little') != 0:
+                bad.append('alloca memory lost its contents / alignment across the call of %s' % G.proto_sig(body['cproto']))
+        mx = impl.get('xmodel')
+        if mx is not None and impl.get('pimg'):
+            cp = body['cproto']
+            crets = {k: (bytes.fromhex(x) if isinstance(x, str) else x) for k, x in body['crets'].items()}
+            img = impl['pimg'] + (impl.get('pstk') or b'')
+            if not impl.get('pstk'):
+                mx = dict(mx, img=[x for x in mx['img'] if x[0][0] != 'S'])
+            bad += ['call made by the function (%s): %s' % (G.proto_sig(cp), b)
+                    for b in G.compare_c05(cp, mx, dict(status='ok', img=img + bytes(256 + G.NSTK - len(img)), outs=outs[XR:XR + 128]), crets)]
     if kind == 'leafpress':
         got = int.from_bytes(outs[XO:XO + 8], 'little')
         if got != leaf_sum(body):
@@ -518,8 +680,11 @@ def parse_dump(text, vararg):
             e -= 1
         obs['restores'] = rest[::-1]
     body_end = e + 1 if j >= 0 else len(insns)
+    obs['sp_moves'] = []
     for k in range(body_start, max(body_start, body_end)):
         op, ops, raw = insns[k]
+        if op in ('sub', 'add') and len(ops) == 3 and ops[0] == 'hr4' and ops[1] == 'hr4':
+            obs['sp_moves'].append('%s %s' % (op, ops[2]))
         for r in re.findall(r'\bhr(\d+)\b', raw):
             if int(r) <= 15:
                 obs['used'].add(int(r))
@@ -552,6 +717,10 @@ def compare_frame(obs, row, vararg):
         if row['saves'] or obs['slots'] or vararg:
             bad.append('tie: function has no prologue but uses callee-saved registers %s / stack slots' % [r for r, _ in row['saves']])
         return bad
+    if not obs['keep_fp'] and obs.get('sp_moves') and obs['slots']:
+        # Frame.v / frame_slots_sound place the slots at fixed offsets from the rsp the prologue leaves
+        bad.append('tie: the function addresses its frame through rsp (no frame pointer) but moves rsp in its body (%s)'
+                   % ', '.join(obs['sp_moves'][:4]))
     if not row['found']:
         bad.append('tie: frame size %d is not a size the frame model produces for >= %d stack slots' % (obs['sub'], min_slots(obs, vararg)))
         return bad
